@@ -24,6 +24,10 @@ class JVal:
         self.items = {}          # key -> [present Bool, child]
         self.elem = None
         self.jid = sym.uid()
+        # registry of lazily created children, SHARED by all clones of this
+        # value: the same key yields the same unknown in a snapshot taken
+        # before the first access and in the state that runs on
+        self._lazy = {}
 
     def py_clone(self, memo, clone):
         n = JVal.__new__(JVal)
@@ -42,8 +46,12 @@ class JVal:
 
     def child(self, key):
         if key not in self.items:
-            self.items[key] = [fresh_bool('has_%s' % key),
-                               JVal('%s.%s' % (self.name, key))]
+            if key not in self._lazy:
+                self._lazy[key] = (fresh_bool('has_%s' % key),
+                                   JVal('%s.%s' % (self.name, key)))
+            p, proto = self._lazy[key]
+            from .engine import _clone
+            self.items[key] = [p, proto.py_clone({}, _clone)]
         return self.items[key]
 
     def string(self, st):
